@@ -39,7 +39,7 @@ check = make_check('C03', _oracle, _nt)
 def streams(tier):
     n = 8 if tier == 'quick' else 12
     return [Stream('both-schedulers', check, strategy=lambda: sched.any_case(max_tasks=n, min_tasks=1),
-                   examples={'quick': 8000, 'thorough': 80000}),
+                   examples={'quick': 5000, 'thorough': 80000}),
             Stream('crowded', check, strategy=lambda: sched.any_case(max_tasks=n, min_tasks=3, palette_max=1, balance=True),
-                   examples={'quick': 4000, 'thorough': 40000}),
+                   examples={'quick': 2500, 'thorough': 40000}),
             Stream('large', check, strategy=lambda: sched.any_case(max_tasks=30, min_tasks=13), examples={'quick': 400, 'thorough': 6000})]
